@@ -22,28 +22,34 @@ def parseHead : String → Head
 def bytesFld (v : String) : BytesFld :=
   match bytesOfHex v with | some b => .val b | none => .bad
 
-def parseRecs (v : String) : Option (List (List UInt8)) :=
-  if v = "-" then some [] else (v.splitOn ";").mapM bytesOfHex
+/-- the pieces of `t` between the occurrences of the character `c` -/
+def splitCh (c : Char) (t : String) : List String := (t.split c).toList.map (·.copy)
 
-/-- one `key=value` field or flag word; the first occurrence of a key counts -/
+def parseRecs (v : String) : Option (List (List UInt8)) :=
+  if v = "-" then some [] else (splitCh ';' v).mapM bytesOfHex
+
+/-- the field `k=v`; the first occurrence of a key counts -/
+def addField (a : Ans) (k v : String) : Ans :=
+  match k with
+  | "sz" => if a.sz.isNone then { a with sz := v.toNat? } else a
+  | "al" => if a.al.isNone then { a with al := v.toNat? } else a
+  | "rf" => if a.rf.isNone then { a with rf := v.toNat? } else a
+  | "n" => if a.n.isNone then { a with n := v.toNat? } else a
+  | "len" => if a.len.isNone then { a with len := v.toNat? } else a
+  | "num" => if a.num.isNone then { a with num := v.toInt? } else a
+  | "ptr" => if a.ptr.isNone then { a with ptr := v.toNat? } else a
+  | "obj" => if a.obj.isNone then { a with obj := v.toNat? } else a
+  | "live" => if a.live.isNone then { a with live := v.toNat? } else a
+  | "leaked" => if a.leaked.isNone then { a with leaked := v.toNat? } else a
+  | "out" => if a.out == .absent then { a with out := bytesFld v } else a
+  | "rec" => if a.recd == .absent then { a with recd := bytesFld v } else a
+  | "recs" => if a.recs.isNone then { a with recs := some (parseRecs v) } else a
+  | _ => a
+
+/-- one `key=value` field or flag word -/
 def addTok (a : Ans) (t : String) : Ans :=
-  match t.splitOn "=" with
-  | [k, v] =>
-    match k with
-    | "sz" => if a.sz.isNone then { a with sz := v.toNat? } else a
-    | "al" => if a.al.isNone then { a with al := v.toNat? } else a
-    | "rf" => if a.rf.isNone then { a with rf := v.toNat? } else a
-    | "n" => if a.n.isNone then { a with n := v.toNat? } else a
-    | "len" => if a.len.isNone then { a with len := v.toNat? } else a
-    | "num" => if a.num.isNone then { a with num := v.toInt? } else a
-    | "ptr" => if a.ptr.isNone then { a with ptr := v.toNat? } else a
-    | "obj" => if a.obj.isNone then { a with obj := v.toNat? } else a
-    | "live" => if a.live.isNone then { a with live := v.toNat? } else a
-    | "leaked" => if a.leaked.isNone then { a with leaked := v.toNat? } else a
-    | "out" => if a.out == .absent then { a with out := bytesFld v } else a
-    | "rec" => if a.recd == .absent then { a with recd := bytesFld v } else a
-    | "recs" => if a.recs.isNone then { a with recs := some (parseRecs v) } else a
-    | _ => a
+  match splitCh '=' t with
+  | [k, v] => addField a k v
   | _ =>
     if t = "null" then { a with null := true }
     else if t = "INUSE" then { a with inuse := true }
